@@ -4,7 +4,11 @@ import xml.etree.ElementTree as ET
 b = json.load(open("/root/.vp/BASELINE.json"))
 out = tempfile.mktemp(suffix=".xml", dir="/tmp")
 env = {k: v for k, v in os.environ.items() if k not in ("VECTOR_VERIF", "PYTHONPATH")}
-subprocess.run(b["cmd"].replace("<file>", out), shell=True, env=env, stdout=subprocess.DEVNULL, stderr=subprocess.DEVNULL)
+cmd = b["cmd"].replace("<file>", out)
+if len(sys.argv) > 1:  # run against a scratch worktree instead of /repo
+    cmd = cmd.replace("cd /repo", "cd " + sys.argv[1])
+    env["PYTHONPATH"] = sys.argv[1] + "/src"
+subprocess.run(cmd, shell=True, env=env, stdout=subprocess.DEVNULL, stderr=subprocess.DEVNULL)
 passed = set()
 for tc in ET.parse(out).getroot().iter("testcase"):
     if not any(c.tag in ("failure", "error", "skipped") for c in tc):
